@@ -77,11 +77,12 @@ func c08Plan(tier string, seed uint64) (jobs []rt.Job) {
 		}
 		for _, h := range tall {
 			s := rng.Seed48()
-			cnt := 40
+			cnt := map[int]int{14: 40, 16: 40, 18: 16, 20: 6}[h]
 			if q {
 				cnt = map[int]int{12: 24, 14: 12, 16: 5}[h]
 			}
-			add(XCfg{H: h, HF: hf, Seed: rt.Hex(s[:]), Seam: true}, "seam-sample", 0, cnt, 15)
+			add(XCfg{H: h, HF: hf, Seed: rt.Hex(s[:]), Seam: true}, "seam-sample", 0, cnt, float64(cnt)*float64(uint(1)<<uint(h))*0.00006+5)
+			jobs[len(jobs)-1].Args["watchdog"] = 7200
 		}
 	}
 	return
